@@ -1,6 +1,8 @@
 """property -> rules"""
 from model import Catalogue
 import r_lifecycle as L
+import r_string as S
+import r_bound as B
 
 TRUSTED = [
     "rustc nightly 1.97 type checker, borrow checker and MIR construction (-Zmir-opt-level=0)",
@@ -14,6 +16,8 @@ def c08_todo(F, R):
 
 
 PROPS = {
+    "C13": {"rules": [B.r_bound_readitems, B.r_index_failstop, B.r_bound_stride_sites], "explanation": "x", "decided": [], "not_decided": []},
+    "C04": {"rules": [S.r_unsafe, S.r_strwrite], "explanation": "x", "decided": [], "not_decided": []},
     "C08": {
         "rules": [L.r_reset, L.r_seed, c08_todo],
         "explanation": "x",
